@@ -30,6 +30,15 @@ CHECKS = {
  'C14': dict(level='exploration', ref='3/C14', technique='differential monitor: POP sequences of the real queue under the four flag sets compared with each other and with the reference language; flag persistence through scripted quit/--load histories of the real main()',
    text='Held on every explored ruleset (Markov structure first/middle/last/absent/only): --skip_brute emits exactly the non-Markov pre-terminals of the default run in the same order (modulo rounding-level ties) with probabilities rescaled by 1/(1-P(M)) within 6 ulp, and is the identity without a Markov structure; --all_lower collapses every mask table to the all-L mask with probability 1 and changes nothing else; a resumed session follows the flags stored in the save file even when --load repeats none or contradicts them.',
    note='Trusts vlib/oracles.py; P(Markov) taken from the first base-structure line that is exactly "M".'),
+ 'C03': dict(level='exploration', ref='3/C03', technique='end-to-end monitor: real run_trainer on generated lists (SEGMENTED events recorded), then the real guesser run to exhaustion with every create_guesses recorded; membership + probability-mass oracle',
+   text='Held on every completed training explored: each training password whose recorded structure has no e-mail/website segment and whose letters are in the stated case domain occurs (exact string) among the guesses generated from the ruleset with --skip_brute, and the probabilities of all emitted guesses sum to 1 +- 1e-9.',
+   note='Case domain as stated in the property (checked per character); trainings that abort are counted, not judged; languages <= 300000 guesses; ASCII-compatible encodings.'),
+ 'C05': dict(level='exploration', ref='3/C05', technique='fuzzing the real PCFGPasswordParser under icontract post-conditions on every detect_* function + reference segment validator on the section list handed to base_structure_creation + counter/tally comparison',
+   text='Held on every generated string (quick ~6e4, thorough ~5e6 incl. 4000-character strings): the segmentation tiles the password, labels state true lengths, every label is sound per the reference validator (digit maximality, letters only, multi-word splits justified by an independent tally of the detector history, years, keyboard walks on re-typed layouts, fixed context list, others without letters/digits), parse never raises, counters equal tallies. The repository\'s own tests are run once with the contracts on (thorough). Two recorded findings are reported as KNOWN-FINDING (U+0130; recursion depth on ~1000 walks).',
+   note='Trusts oracles.validate_segmentation and the harness tally; E/W soundness checked lightly; multi-word completeness not required.'),
+ 'C06': dict(level='exploration', ref='3/C06', technique='trainer monitor: harness tallies of the SEGMENTED events vs every file the real trainer wrote (byte-level reader) + fresh-process determinism of the real trainer.py under different hash seeds',
+   text='Held on every completed training explored: every terminal/mask/base/Prince/raw list holds exactly the tallied items once, probability = count/total (1e-12), most-to-least probable, sum 1; Markov pseudo-count N(1/c-1), absent for coverage 1, sole entry for coverage 0; e-mail/website structures only in raw_grammar.txt; config file lists = files on disk; two CLI trainings in fresh processes with different PYTHONHASHSEED are byte-identical apart from the uuid line.',
+   note='Trusts the harness tally (C05 validates the segments it is built from); provider/host lists not re-derived; alpha lists containing Greek sigma compared elsewhere (context-sensitive lower()).'),
 }
 PENDING = {}
 def main():
